@@ -167,6 +167,10 @@ func VerifyFunction(P *Program, C *Contracts, fn *ssa.Function, fc *FuncContract
 		free[i] = Val{K: KPtr, P: &Ptr{K: PCell, Cell: c, Typ: t}}
 	}
 	fr := e.newFrame(fn, params, free, st, nil)
+	fr.freeCells = map[string]*Cell{}
+	for _, f := range free {
+		fr.freeCells[f.P.Cell.Name] = f.P.Cell
+	}
 	fr.top = true
 	fr.contract = fc
 	ws := newWriteSet()
